@@ -368,7 +368,8 @@ def run(F, rep, tier):
              'get_mut / entry get_mut / vacant insert, iter_mut) - never a fresh clone written back afterwards and never the dict\'s shared '
              'default value')
     WALK = ('eval::set_index', 'eval::modify_existing_index', 'eval::modify_every_existing_index')
-    STORAGE = ('pythonic_mut', 'index_mut', 'get_mut', 'insert', 'next', 'or_insert', 'or_insert_with', 'into_mut', 'last_mut', 'first_mut', 'deref_mut', 'make_mut')
+    STORAGE = ('pythonic_mut', 'index_mut', 'get_mut', 'insert', 'next', 'or_insert', 'or_insert_with', 'into_mut', 'last_mut', 'first_mut', 'deref_mut', 'make_mut',
+               'find', 'find_map', 'nth', 'last', 'next_back', 'get_many_mut', 'split_first_mut', 'split_last_mut')      # iterator consumers over iter_mut hand out the stored element too
     n110 = 0
     for w in WALK:
         if not F.has_fn(w):
